@@ -4,5 +4,6 @@ import NflowsModel.Properties.C04P
 import NflowsModel.Properties.C04X
 import NflowsModel.Properties.C04R
 import NflowsModel.Properties.C04A
+import NflowsModel.Properties.C04G
 
 #audit_namespace Properties.C04
